@@ -15,7 +15,8 @@ pub const B3_ORDER: &[(&str, &str)] = &[
     ("103", "EBA"), ("113", "NNNN"), ("108", "MUR1234567890123"), ("119", "STP"),
     ("423", "24071812345698"), ("106", "240717BANKBEBBAXXX1234567890"), ("424", "RELREF123"),
     ("111", "001"), ("121", "8a562c65-9a7e-4d8b-8f3a-2b1c5d6e7f80"), ("115", "ADDRESSEE INFO"),
-    ("165", "ABC/RELEASE INFO"), ("433", "AOK/NO HIT"), ("434", "FPO/CONTROL INFO"),
+    // (the free-text part of 165 / 433 / 434 is of the x set: a slash inside it is part of the value)
+    ("165", "ABC/RELEASE/INFO 1"), ("433", "AOK/NO/HIT 2025/42"), ("434", "FPO/CONTROL/INFO 7"),
 ];
 pub const B5_ORDER: &[(&str, &str)] = &[
     ("CHK", "123456789ABC"), ("TNG", ""), ("PDE", "1348120811BANKFRPPAXXX2222123456"), ("DLM", ""),
